@@ -908,6 +908,34 @@ def gen_history_set(rng, n):
     return specs
 
 
+IFACE_PY = "holopy/scattering/interface.py"
+
+
+def _src_items():
+    from harness.lib import pyarr, pysrc
+    kw = dict(axis_name="vector", axis_labels=["x", "y", "z"])
+    return [
+        dict(file=IFACE_PY, qualname="(header)", name="asum", fn=lambda repo: pyarr.HEADER),
+        dict(file=IFACE_PY, qualname="scattered_field_to_hologram", name="holo_src",
+             fn=lambda repo: pyarr.translate(repo, IFACE_PY, "scattered_field_to_hologram", "holo_src", [("scat", "C"), ("ref", "R")], **kw)),
+        dict(file=IFACE_PY, qualname="calc_intensity", name="inten_src",
+             fn=lambda repo: pyarr.translate(
+                 repo, IFACE_PY, "calc_intensity", "inten_src", [("field", "C")],
+                 params=["detector", "scatterer", "medium_index", "illum_wavelen", "illum_polarization", "theory"],
+                 opaque={"field": 0}, opaque_calls={"calc_field"}, passthrough={"finalize": 1}, **kw)),
+        dict(file=IFACE_PY, qualname="calc_holo (scaled field)", name="holo_arg_src",
+             fn=lambda repo: pysrc.translate_call_arg(repo, IFACE_PY, "calc_holo", "holo_arg_src", "scattered_field_to_hologram", 0,
+                                                      {"scattered_field": "e", "scaling": "alpha"})),
+    ]
+
+
+def stage_srctie(ctx):
+    from harness.lib import srctie
+    ok = srctie.run(ctx, "C01", "From Coq Require Import Lia Psatz.\nFrom HV Require Import C01.Model C01.Lemmas C01.Props.\n",
+                    _src_items())
+    ctx.count("srctie:%s" % ("ok" if ok else "broken"))
+
+
 def _quiet():
     """holopy installs an 'always' filter for OverlapWarning at import; the sibling sets shift and grow spheres on purpose"""
     import warnings
@@ -1133,8 +1161,17 @@ def run(ctx):
     def lap(name):
         t.append(time.time())
         ctx.notes.append("stage %s: %.1fs" % (name, t[-1] - t[-2]))
+    ctx.clauses_proved.append(
+        "source tie: scattered_field_to_hologram, the intensity expression of calc_intensity and the scaled field calc_holo hands "
+        "over (xarray vector code read along the 'vector' axis), translated from the current source text on every run, are proved "
+        "equal to the model's holo_px / inten_px for every field, polarisation and scaling; scaling 0 => 1 and intensity = hologram "
+        "without reference restated for the translated source")
+    ctx.trusted.append("translator harness/lib/pyarr.py (a field read as the list of its x, y, z components; .sel(vector=['x','y']) the "
+                       "first two of them; .sum(dim=vector) a list fold; np.abs of a complex number sqrt(re^2+im^2); calc_field and finalize "
+                       "opaque / pass-through)")
     guarded(ctx, "prove", ctx.prove)
     lap("prove")
+    guarded(ctx, "source-tie", stage_srctie, ctx)
     boot.boot()
     _quiet()
     guarded(ctx, "real", stage_real, ctx)
@@ -1147,10 +1184,14 @@ def run(ctx):
 
 def replay(ctx, data):
     """re-run the stored failing request (or history) on the current tree"""
-    boot.boot()
-    _quiet()
     d = data["data"]
     kind = d.get("kind")
+    if kind == "tie":
+        ctx.prove()
+        stage_srctie(ctx)
+        return
+    boot.boot()
+    _quiet()
     if kind == "real":
         check_real(ctx, [d["spec"]], "C01rp")
     elif kind == "mock":
